@@ -272,6 +272,8 @@ def optional_flag_shape(cname):
 
     sh = Shape(name, build, obligations)
     sh.grid = False
+    from symx.harness import crash_obligations
+    sh.on_exception = crash_obligations(PROP, name, "symx.harness:replay_build_crash", "a well-formed problem cannot be built and initialised")
     sh.cname = cname
     return sh
 
@@ -362,6 +364,8 @@ def forced_shape(cname):
 
     sh = Shape(name, build, obligations)
     sh.grid = False
+    from symx.harness import crash_obligations
+    sh.on_exception = crash_obligations(PROP, name, "symx.harness:replay_build_crash", "a well-formed problem cannot be built and initialised")
     sh.declare = declare
     return sh
 
@@ -462,6 +466,8 @@ def wrapped_shape(wrapper, cname):
 
     sh = Shape(name, build, obligations)
     sh.grid = False
+    from symx.harness import crash_obligations
+    sh.on_exception = crash_obligations(PROP, name, "symx.harness:replay_build_crash", "a well-formed problem cannot be built and initialised")
     sh.declare = declare
     return sh
 
